@@ -380,6 +380,10 @@ func (b *assignmentBuilder) castNode(lhsType types.Type, rhs bmodel.Node) (c bmo
 	if types.AssignableTo(rhs.ExprType(), lhsType) {
 		return rhs, true
 	}
+	if rhs.ReturnsError() {
+		// A call that also returns an error cannot be wrapped in a conversion or a String() call.
+		return nil, false
+	}
 
 	if b.opts.Stringer && types.AssignableTo(util.StringType(), lhsType) && util.CompliesStringer(rhs.ExprType()) {
 		return b.castNode(lhsType, bmodel.NewStringer(rhs))
